@@ -257,7 +257,7 @@ func (p Profile) nextArr(r *rand.Rand, c Cont, del bool) Edit {
 	}
 	alts := []alt{{4, "arr.add"}, {3, "arr.ins"}, {2, "arr.del"}}
 	if !p.NoMove && n >= 2 {
-		alts = append(alts, alt{2, "arr.move"}, alt{1, "arr.front"}, alt{1, "arr.last"})
+		alts = append(alts, alt{2, "arr.move"}, alt{1, "arr.front"}, alt{1, "arr.last"}, alt{2, "arr.before"})
 	}
 	if !p.NoArrSet {
 		alts = append(alts, alt{2, "arr.set"})
@@ -298,7 +298,7 @@ func (p Profile) nextArr(r *rand.Rand, c Cont, del bool) Edit {
 			i = n - 1 // deleting the last item is a known sore spot
 		}
 		return Edit{Op: op, Path: c.Path, I: i}
-	case "arr.move":
+	case "arr.move", "arr.before":
 		i := r.Intn(n)
 		j := r.Intn(n)
 		if i == j {
